@@ -119,24 +119,28 @@ def main_probe(ctx):
     linkers = [pre + c for c in cores for pre in ("", "v", "vv", "V", "v ")]
     others = [{"Commit": "", "Dirty": "", "Date": "", "BuiltBy": ""}, {"Commit": "abc123", "Dirty": "true", "Date": "2024-01-01", "BuiltBy": "me"},
               {"Commit": "abc123", "Dirty": "false", "Date": "", "BuiltBy": ""}, {"Commit": "", "Dirty": "maybe", "Date": "d", "BuiltBy": ""}]
-    reqs = [dict(others[k % len(others)], Version=l) for k, l in enumerate(linkers) if l != ""]
+    others += [{"Commit": "unknown", "Dirty": "true", "Date": "unknown", "BuiltBy": "x"}, {"Commit": "c", "Dirty": "TRUE", "Date": "unknown", "BuiltBy": ""}]
+    # the first request carries no linker value at all: its answer is what the Go build info provides (the defaults)
+    reqs = [{"Version": "", "Commit": "", "Dirty": "", "Date": "", "BuiltBy": ""}]
+    reqs += [dict(others[k % len(others)], Version=l) for k, l in enumerate(linkers)]
     q = subprocess.run([exe], input="".join(json.dumps(r) + "\n" for r in reqs), env=dict(os.environ, VERIF_MAIN_PROBE="1"), stdout=subprocess.PIPE, stderr=subprocess.PIPE, text=True, timeout=300)
     outs = [json.loads(l) for l in q.stdout.splitlines() if l.strip()]
     violations, corr_fail = [], []
     if q.returncode != 0 or len(outs) != len(reqs):
         violations.append({"sig": "main-probe", "what": "probe of package main failed: exit %d, %d of %d answers: %s" % (q.returncode, len(outs), len(reqs), q.stderr[-300:])})
         return violations, corr_fail, 0, 0
-    rm = ctx.model.ask_many([{"op": "normalizeBuild", "linker": r["Version"]} for r in reqs]) if ctx.have_model else [None] * len(reqs)
+    defaults = {k: outs[0][k] for k in ("gitVersion", "gitCommit", "treeState", "buildDate", "builtBy")}
+    rm = ctx.model.ask_many([dict(r, op="mainInfo", defaults=defaults) for r in reqs]) if ctx.have_model else [None] * len(reqs)
     stripped = 0
-    for r, o, m in zip(reqs, outs, rm):
+    for r, o, m in zip(reqs[1:], outs[1:], rm[1:]):
         l = r["Version"]
-        want = normalize_linker(l)
-        stripped += want != l
+        want = normalize_linker(l) if l != "" else outs[0]["gitVersion"]
+        stripped += want != l and l != ""
         if o["gitVersion"] != want:
             violations.append({"sig": "linker-normalisation", "what": "linker version %r becomes %r; documented: one leading v is dropped iff the rest is a semantic version: %r" % (l, o["gitVersion"], want), "input": {"linker": l}})
-        if m is not None and m.get("ok") != o["gitVersion"] and len(corr_fail) < 10:
-            corr_fail.append({"op": "normalizeBuild", "req": {"linker": l}, "impl": o["gitVersion"], "model": m.get("ok")})
-        # the other linker values never touch the version
+        if m is not None and {k: m.get(k) for k in o} != o and len(corr_fail) < 10:
+            corr_fail.append({"op": "mainInfo", "req": r, "impl": o, "model": m})
+        # the header line starts with the version whatever else the linker provides
         if not o["buildInfo"].startswith(o["gitVersion"]):
             violations.append({"sig": "linker-normalisation", "what": "build info %r does not start with the version %r" % (o["buildInfo"], o["gitVersion"]), "input": r})
     return violations, corr_fail, len(reqs), stripped
